@@ -2,17 +2,17 @@
 res() { echo "RESULT $1"; }
 # C19-x via the agent's runner
 runA() { local i=$1 dir=$2 crate=$3 extra=$4 WT=/tmp/mut-c19 OUT=/tmp/mut-c19-out8
-  cd $WT && git checkout -q -- . && git clean -fdq
+  cd $WT || exit 9; git checkout -q -- . && git clean -fdq
   $OUT/run_demo.sh $dir $OUT/$i/demo.rs $extra > /tmp/c19x-$i-clean.log 2>&1; C=$?
   cd $WT && git checkout -q -- . && git apply $OUT/$i/patch.diff
   $OUT/run_demo.sh $dir $OUT/$i/demo.rs $extra > /tmp/c19x-$i-mut.log 2>&1; M=$?
   cd $WT && CARGO_NET_OFFLINE=true CARGO_TARGET_DIR=/tmp/mut-c19-target cargo test -p $crate --offline > /tmp/c19x-$i-suite.log 2>&1; S=$?
-  cd $WT && git checkout -q -- . && git clean -fdq
+  cd $WT || exit 9; git checkout -q -- . && git clean -fdq
   res "c19x/$i demo_clean_exit=$C demo_mutated_exit=$M suite_with_mutation_exit=$S"; }
 # demos that need rayon as a dev-dependency on the clean tree
 runR() { local tag=$1 i=$2 crate=$3 cdir=$4; local WT=/tmp/mut-$tag OUT=/tmp/mut-$tag-out8
   export CARGO_NET_OFFLINE=true CARGO_TARGET_DIR=/tmp/mut-$tag-target
-  cd $WT && git checkout -q -- . && git clean -fdq
+  cd $WT || exit 9; git checkout -q -- . && git clean -fdq
   mkdir -p $cdir/tests && cp $OUT/$i/demo.rs $cdir/tests/demo_mut.rs
   cp $cdir/Cargo.toml /tmp/$tag-$i-Cargo.bak
   sed -i 's/^\[dev-dependencies\]$/[dev-dependencies]\nrayon = "1"/' $cdir/Cargo.toml
